@@ -148,6 +148,36 @@ def run(tier, seed):
     cov["system_composition"] = sc
     states += ss
     trans += st
+    # ---- code -> spec: the events of whole run() calls on the corpus (silent and raising, run twice) validated by TLC against the stage machine
+    from .. import trace_sys as TS
+    from .. import corpus as CP
+    import copy
+    corp = CP.harvest()
+    ttasks = []
+    for r_ in corp:
+        ttasks.append((r_["text"], dict(r_["ctor"]), {}, 2))
+        ttasks.append((r_["text"], dict(r_["ctor"], silent=False), {"group_by_type": True}, 1))
+    for b in behs[:300]:
+        ttasks.append((A.render(b, b["stmts"], seed), {"silent": False}, {}, 1))
+    ttr = TS.record(ttasks)
+    tacc, trej, trr = TS.validate(ttr)
+    for i_, line, model in trej:
+        V.mismatch({"problem": "recorded run() rejected by spec/TraceSystem.tla (stage order / fold counts / raising)", "ddl": ttasks[i_][0][:1200], "ctor": ttasks[i_][1],
+                    "event": ttr[i_]["ev"][line - 1] if line else None, "events_before": ttr[i_]["ev"][max(0, (line or 1) - 4):(line or 1) - 1], "model": model}, paths=["trace"])
+    with_events = [t for t in ttr if t and len(t["ev"]) >= 4 and any(e["e"] == "Apply" for e in t["ev"])]
+    if with_events:          # (no events at all = the guarded hooks are not in this tree: skipped, not a verdict)
+        bad1 = copy.deepcopy(with_events[0])
+        ia = next(k for k, e in enumerate(bad1["ev"]) if e["e"] == "Apply")
+        bad1["ev"].insert(ia + 1, {"e": "Parse", "acc": True})          # a statement parsed after folding started
+        bad2 = copy.deepcopy(with_events[0])
+        bad2["ev"][ia]["n"] += 1                                           # an item that adds two entities
+        _, rejb, _ = TS.validate([bad1, bad2])
+        if len(rejb) != 2:
+            raise C.MachineryError("TraceSystem accepted a corrupted trace: the binding is vacuous")
+    cov["run_traces"] = {"runs_recorded": len(ttr), "events": sum(len(t["ev"]) for t in ttr if t), "accepted": tacc, "rejected": len(trej),
+                         "corrupted_traces_rejected": bool(with_events)}
+    states += trr.distinct if trr else 0
+    trans += trr.generated if trr else 0
     rc = V.finish()
     b = behs[0]
     cov.update({"states": states, "transitions": trans, "traces_validated_against_impl": total + n,
